@@ -12,6 +12,7 @@ mod rng;
 mod rspec;
 mod spec;
 mod stats;
+mod trace;
 mod tree;
 
 fn usage() -> ! {
